@@ -40,6 +40,15 @@ CHECKS = {
         "level_note": "Go map-typed values and encryption excluded (as the property states). One AVX-512 CPU: run-time kernel selection is covered only as build variants. Buffers (GenericBuffer.Reset) are exercised by C10.",
         "design_ref": "DESIGN.md §4 C17",
     },
+    "C08": {
+        "pkg": "c08", "level": "exploration",
+        "quick": {"shards": 8, "checks": 600, "timeout": 900},
+        "thorough": {"shards": 16, "checks": 15000, "timeout": 5000},
+        "technique": "stateful property-based testing (rapid): generated SeekToRow/ReadRows/ReadPage histories against a cursor over reference rows",
+        "level_text": "Random search over files (nested schemas, tiny pages, several row groups, both page versions, with/without page index, sync/async) and operation histories on five reader kinds; the model is the row list from the reference shredder plus a cursor, compared after every read. Consecutive seeks, backward seeks and seeks to page boundaries ±1 are generated deliberately.",
+        "level_note": "Seeks beyond NumRows and use after Close are outside the asserted domain. Async mode explores only the schedules the runtime happens to produce.",
+        "design_ref": "DESIGN.md §4 C08",
+    },
 }
 
 NOT_APPLICABLE = {
